@@ -65,6 +65,7 @@ func SameMap(a, b map[string]interface{}) bool  { panic("symbolic only") }
 func SymbolicTime()                             { panic("symbolic only") }
 func AdvanceTo(t int64)                         { panic("symbolic only") }
 func BufString(buf interface{}) string          { panic("symbolic only") }
+func Digest(p interface{}) string               { panic("symbolic only") }
 func Opaque(name string) string                 { panic("symbolic only") }
 `
 
@@ -369,12 +370,83 @@ func (e *Engine) rtCall(c *CallCtx) (Value, bool) {
 		}
 		st.ghost["now"] = ts.Ite(ts.BvCmp(OBvSlt, last, t), t, last)
 		return nil, true
+	case "Digest":
+		// a textual digest of the object a pointer refers to: its cells and, one level down, the
+		// length / closed flag of channels, the size of maps and slices it refers to. Two digests
+		// of the same object are equal iff nothing of that changed in between.
+		iv := c.args[0].(IfaceV)
+		p, ok := iv.Alts[0].V.(Ptr)
+		if !ok || len(iv.Alts) != 1 {
+			panic(pathEnd{kind: "unmodelled", msg: "verifrt.Digest of a non-pointer"})
+		}
+		o, _, okc := p.concrete()
+		if !okc || o == 0 {
+			panic(pathEnd{kind: "unmodelled", msg: "verifrt.Digest of a symbolic or nil pointer"})
+		}
+		var sb strings.Builder
+		for i, cell := range st.obj(o).Cells {
+			fmt.Fprintf(&sb, "%d:%s;", i, e.digestValue(st, cell))
+		}
+		return ts.StrC(sb.String()), true
 	case "BufString":
 		iv := c.args[0].(IfaceV)
 		p := iv.Alts[0].V.(Ptr)
 		return e.bufGet(st, p), true
 	}
 	panic(pathEnd{kind: "unmodelled", msg: "verifrt." + c.fn.Name()})
+}
+
+func (e *Engine) digestValue(st *State, v Value) string {
+	switch x := v.(type) {
+	case nil:
+		return "nil"
+	case *Term:
+		if x.IsConst() {
+			return fmt.Sprintf("%d/%v/%q", x.BV, x.B, x.Str)
+		}
+		return fmt.Sprintf("term#%d", x.id)
+	case Ptr:
+		o, off, ok := x.concrete()
+		if !ok {
+			return "ptr?"
+		}
+		if o == 0 {
+			return "nil"
+		}
+		ob := st.obj(o)
+		switch ob.Kind {
+		case KChan:
+			return fmt.Sprintf("chan#%d(len=%d,closed=%v)", o, len(ob.Buf), ob.Closed)
+		case KMap:
+			return fmt.Sprintf("map#%d(entries=%d)", o, len(ob.Entries))
+		}
+		return fmt.Sprintf("ptr#%d+%d", o, off)
+	case SliceV:
+		return "slice(len=" + e.digestValue(st, x.Len) + ")"
+	case StructV:
+		s := "{"
+		for _, f := range x.F {
+			s += e.digestValue(st, f) + ","
+		}
+		return s + "}"
+	case ArrayV:
+		s := "["
+		for _, f := range x.E {
+			s += e.digestValue(st, f) + ","
+		}
+		return s + "]"
+	case IfaceV:
+		if len(x.Alts) == 1 && x.Alts[0].T == nil {
+			return "iface(nil)"
+		}
+		if len(x.Alts) == 1 {
+			return "iface(" + x.Alts[0].T.String() + ":" + e.digestValue(st, x.Alts[0].V) + ")"
+		}
+		return "iface?"
+	case FuncV:
+		return "func"
+	}
+	return fmt.Sprintf("%T", v)
 }
 
 // ensureModel makes sure st.model satisfies the path condition.
